@@ -40,6 +40,12 @@ Definition kq_direct (c : kq_case) : Q :=
 Definition kq_ok (c : kq_case) : bool :=
   Qle_bool (kq_lo c) (kq_value c) && Qle_bool (kq_value c) (kq_hi c) && Qeq_bool (kq_value c) (kq_direct c).
 
+(** ---- the model of col_cumsum(x, init_zero=True) used by the C01 / C06 theorems: row i of the real prefix-sum array = prefixQ xs i ---- *)
+Definition pf_case := (list Q * list Q)%type.     (* one data column, the real prefix sums of that column (n + 1 entries) *)
+Definition pf_ok (c : pf_case) : bool :=
+  let '(xs, sums) := c in
+  (length sums =? S (length xs))%nat && forallb (fun i => Qeq_bool (prefixQ xs i) (nth i sums 0)) (seq 0 (S (length xs))).
+
 (** ---- adapters on exact integer user costs (C06): ChangeScore / Saving / LocalAnomalyScore ---- *)
 Open Scope Z_scope.
 Inductive ad_case :=
